@@ -243,6 +243,17 @@ PART_ID = re.compile''')
         else:
             infile = None
         for rg, sel in zip(rgs, selected):''')
+elif name == "closurefile":    # api: the open data file lives in the closure of a callable kept on the handle
+    sub("api.py", '''            infile = self.open(self.fn, 'rb')
+        else:
+            infile = None
+        for rg, sel in zip(rgs, selected):''', '''            if getattr(self, "_opener", None) is None:
+                f_ = self.open(self.fn, 'rb')
+                self._opener = lambda: f_
+            infile = self._opener()
+        else:
+            infile = None
+        for rg, sel in zip(rgs, selected):''')
 elif name == "slicealias":     # api: a derived handle inherits (aliases) the parent's statistics cache
     sub("api.py", '''        new_pf._set_attrs(self.schema)
         return new_pf''', '''        new_pf._set_attrs(self.schema)
